@@ -202,7 +202,7 @@ def build(unit, workdir):
                         raise Undecided("R16: parameters of %s changed: real %s vs contract %s" % (fnpath, rp, tp))
                 g.rules_applied["R16"] = g.rules_applied.get("R16", 0) + 1
                 start = tmpl_sig_line
-                while start > 0 and g.lines[start - 1].strip().startswith("#["):
+                while start > 0 and re.match(r"^\s*(#\[[^\]]*\]\s*)+$", g.lines[start - 1]):
                     start -= 1
                 first = len(g.lines) + 1
                 g.add(body, "body", (fnpath, S.path, f["line"]))
